@@ -223,7 +223,7 @@ def sensor_shapes(chk):
     return low, high
 
 
-SENSOR_THEOREMS = ["Poupool.SensorProps." + t for t in ("dead_sensor_reads_zero", "dead_sensor_needs_nonneg_low", "value_in_range", "reading_time", "dead_reading_time", "low_readings_read_low")]
+SENSOR_THEOREMS = ["Poupool.SensorProps." + t for t in ("dead_sensor_reads_zero", "dead_sensor_needs_nonneg_low", "value_in_range", "reading_time", "dead_reading_time", "low_readings_read_low", "high_readings_read_high", "steady_reading")]
 
 
 def sensor_check(chk):
@@ -273,6 +273,25 @@ def sensor_check(chk):
             diff.append((seq, lo, hi, [v, dur], m))
     chk.correspondence("TankSensorDevice.value = Sensor.value on fault patterns and calibrations (elapsed time and clamped results exact, the fraction within 1e-9)", len(cases), len(diff), distribution=dist, detail=diff[:3] or None)
     chk.correspondence("TankSensorDevice.value on fault patterns: result in [0,100], dead ADC reads 0, one reading takes ≤ 5 s (R of C04.latency_bound)", len(cases), len(bad), detail=bad[:3] or None)
+    # low_readings_read_low / high_readings_read_high on the REAL class: failed attempts never move the level across a threshold
+    crossed, nlow, nhigh = [], 0, 0
+    for (seq, lo, hi), (v, dur) in zip(cases, res):
+        good = [x for x in seq if x is not None]
+        if not good or not 0 <= lo < hi:
+            continue
+        for pct in (10, 20, 40, 50, 80, 100):
+            if all((g - lo) * 100 + 100 <= pct * (hi - lo) for g in good):
+                nlow += 1
+                if not v < pct:
+                    crossed.append((seq, lo, hi, pct, v, "every successful reading is below the raw count of the threshold, value is not"))
+            if all(pct * (hi - lo) <= (g - lo) * 100 for g in good):
+                nhigh += 1
+                if not v >= pct - 1e-9:
+                    crossed.append((seq, lo, hi, pct, v, "every successful reading is at or above the raw count of the threshold, value is below"))
+    chk.correspondence("TankSensorDevice.value respects low_readings_read_low / high_readings_read_high (failed attempts never move the level across a threshold)", nlow + nhigh, len(crossed),
+                       distribution={"all readings below a threshold": nlow, "all readings at or above a threshold": nhigh}, detail=crossed[:3] or None)
+    for b in crossed[:1]:
+        chk.violation("tank-sensor-threshold-crossed", f"TankSensorDevice.value gave {b[4]} for ADC pattern {b[0]} (calibration {b[1]}..{b[2]}, threshold {b[3]} %): {b[5]}", {"kind": "sensor", "pattern": b[0]})
     for b in bad[:1]:
         chk.violation("tank-sensor-dead-adc", f"TankSensorDevice.value gave {b[1]} after {b[2]} s for ADC pattern {b[0]}", {"kind": "sensor", "pattern": b[0]})
 
